@@ -57,6 +57,53 @@ def lemmas():
     yield ('extract:real-table:listed-macros-extract-first-mandatory-'
            'argument-others-nothing', not bad, 'macro, code, extracted: %r'
            % (bad[:3],))
+def extraction_small_documents(seed):
+    """that the expander emits exactly the first mandatory arguments of the
+    listed macros, in order, and nothing from comments, skipped regions and
+    verbatim material is not decided deductively: bounded stand-in on all
+    documents of <= 4 pieces over a catalogue of 9 pieces"""
+    import itertools
+    from pyvc import replay as _r
+    t2t = _r.real_module('yalafi.tex2txt')
+    pieces = [
+        ('\\input{a} ', ['a']), ('%\\input{b}\n', []),
+        ('\\verb|\\input{c}| ', []),
+        ('\\begin{verbatim}\\input{d}\\end{verbatim} ', []),
+        ('\n%%% LT-SKIP-BEGIN\n\\input{e}\n%%% LT-SKIP-END\n', []),
+        ('word ', []), ('\\include{f} ', ['f']), ('\\other{g} ', []),
+        ('\\input xy ', ['x']),
+    ]
+    n, fails = 0, []
+    for ln in range(0, 5):
+        for combo in itertools.product(range(len(pieces)), repeat=ln):
+            if ln == 4 and (sum(combo) + seed) % 3:
+                continue
+            src = ''.join(pieces[i][0] for i in combo)
+            want = [nm for i in combo for nm in pieces[i][1]]
+            n += 1
+            try:
+                plain, _ = t2t.tex2txt(src, t2t.Options(
+                    extr='input,include'))
+            except Exception as e:      # noqa
+                fails.append({'input': src, 'why': 'exception %r' % (e,)})
+                continue
+            got = plain.split()
+            if got != want:
+                fails.append({'input': src, 'extracted': got,
+                              'expected': want})
+            if len(fails) >= 3:
+                break
+        if len(fails) >= 3:
+            break
+    return {'name': 'extraction-on-small-documents', 'bounded': True,
+            'bound': 'all documents of <= 3 pieces and a third of those with '
+                     '4 pieces over a catalogue of 9 pieces, extraction list '
+                     'input,include',
+            'evaluations': n, 'failures': fails}
+
+
+QUICK_BOUNDED = [extraction_small_documents]
+
 TRUSTED = [
     'mechanical extraction (pyvc/front.py lift_include_loop): the module-level statements of yalafi/shell/shell.py from '
     '`todo = cmdline.file` to `cmdline.file = done` become the body of a function with parameters cmdline, opts; nothing is '
